@@ -860,6 +860,7 @@ class Variant(VariantBase):
         self._assert_value("type", VARIANT_TYPES)
 
     def _validate_arches(self):
+        self._assert_type("arches", [set, frozenset, list, tuple])
         self._assert_not_blank("arches")
 
     def _validate_parent_arch(self):
@@ -887,6 +888,8 @@ class Variant(VariantBase):
         self.uid = data["uid"]
         self.name = data["name"]
         self.type = data["type"]
+        if not isinstance(data["arches"], (list, tuple)):
+            raise TypeError("Variant '%s': arches must be a list: %r" % (variant_uid, data["arches"]))
         self.arches = set(data["arches"])
 
         if self.type == "layered-product":
